@@ -90,6 +90,8 @@ def cases(tier, seed, shard, nshards):
                         k += 1
                         if k % nshards == shard:
                             yield {"d": d, "kind": kind, "s0": s0, "second": second, "s1": s1, "third": False, "samecol": False, "order": 0}
+                            if second == "foreign-where":
+                                yield {"d": d, "kind": kind, "s0": s0, "second": second, "s1": s1, "third": False, "samecol": False, "order": 1}
     for d in DIALECT_CLASSES:
         for second in ("from", "join", "foreign-where", "update-from"):
             for order in (0, 1):
@@ -101,7 +103,7 @@ def cases(tier, seed, shard, nshards):
                         if k % nshards == shard:
                             yield {"d": d, "kind": kind, "s0": s0, "second": second, "s1": "plain", "third": False, "samecol": True, "order": order}
     rnd = random.Random("C11:%d:%d" % (seed, shard))
-    n = (4000 if tier == "quick" else 300000) // nshards
+    n = (40000 if tier == "quick" else 600000) // nshards
     for i in range(n):
         kind = rnd.choice(["select", "select", "select", "update", "delete", "insert"])
         s0 = rnd.choice(SHAPES if kind == "select" else SHAPES[:4])
@@ -187,11 +189,16 @@ def build(case):
                      r["Case"]().when(F(pick(), "case") > 1, F(0, "case")).else_(0))
         if src1 is not None:
             q = q.select(F(1, "select"))
+        # the criterion naming the foreign table comes first or last among the where() calls (case["order"])
+        if foreign is not None and case["order"] == 1:
+            a = c.col()
+            q = q.where(r["Field"](a, table=foreign) == F(0, "where"))
+            exp.append((a, "FOREIGN", "where"))
         q = q.where(F(0, "where") > 1).where(F(pick(), "where").isin([1, 2]))
-        if foreign is not None:
+        if foreign is not None and case["order"] == 0:
             a = c.col()
             fa, fb = r["Field"](a, table=foreign), F(0, "where")
-            q = q.where(fa == fb if case["order"] == 0 else fb == fa)
+            q = q.where(fb == fa)
             exp.append((a, "FOREIGN", "where"))
         q = q.groupby(F(0, "groupby"), F(pick(), "groupby")).having(fn("Count")(F(pick(), "having")) > 1).orderby(F(0, "orderby"), F(pick(), "orderby"))
     elif kind == "update":
